@@ -36,20 +36,21 @@ def remove_ns(s):
 
 class Parser(BaseParser):
     default_suffix = '.xml'
-
-    def parse_bytes(self, value):
-        tree = ET.fromstring(value)
-        return self.parse_tree(tree)
+    # The encoding given to the parser says how bytes and files are encoded,
+    # as for the other readers: BaseParser decodes them and we parse text.
+    # (Handing the bytes to expat made it depend on the name written in the
+    # XML declaration: expat knows a handful of names and no multi-byte
+    # codecs besides UTF-8/UTF-16, so encoding='utf8', 'utf-8-sig', 'utf-32',
+    # 'utf-16-le'... could be written but not read back.)
+    unicode_io = True
 
     def parse_string(self, value):
-        # a str needs no encoding: re-encoding it without an XML declaration
-        # made the XML parser assume UTF-8 whatever self.encoding was
+        # a str needs no encoding; an XML declaration inside it is overridden by the parser
         tree = ET.fromstring(value)
         return self.parse_tree(tree)
 
     def parse_stream(self, stream):
-        tree = ET.parse(stream)
-        return self.parse_tree(tree)
+        return self.parse_string(stream.read())
 
     def parse_tree(self, tree):
         entries = tree.findall(bibtexns + 'entry')
